@@ -392,14 +392,19 @@ Section Laws.
     - intros; apply Sf; right; assumption.
   Qed.
 
+  Lemma nth_map_lt {A B} (f : A -> B) l i d d' : (i < length l)%nat -> nth i (map f l) d = f (nth i l d').
+  Proof.
+    intros Hi. rewrite (nth_indep _ d (f d')) by (rewrite map_length; exact Hi). apply map_nth.
+  Qed.
+
   (* entry of a product *)
   Lemma ment_mmul n (A B : list (list K)) i j : (j < n)%nat ->
     ment (mmul n A B) i j = dot (nth i A []) (mcol B j).
   Proof.
     intros Hj. unfold ment, mmul. destruct (Nat.lt_ge_cases i (length A)) as [Hi|Hi].
-    - rewrite (nth_indep _ [] ((fun ra => map (fun j => dot ra (mcol B j)) (seq 0 n)) [])) by (rewrite map_length; exact Hi).
-      rewrite map_nth. rewrite (nth_indep _ nzero ((fun j => dot (nth i A []) (mcol B j)) 0%nat)) by (rewrite map_length, seq_length; exact Hj).
-      rewrite map_nth, seq_nth by exact Hj. reflexivity.
+    - rewrite (nth_map_lt _ A i [] []) by exact Hi.
+      rewrite (nth_map_lt _ (seq 0 n) j nzero 0%nat) by (rewrite seq_length; exact Hj).
+      rewrite seq_nth by exact Hj. reflexivity.
     - rewrite (nth_overflow (map _ A)) by (rewrite map_length; exact Hi). rewrite (nth_overflow A) by exact Hi.
       rewrite dot_nil_l. destruct j; reflexivity.
   Qed.
@@ -417,14 +422,14 @@ Section Laws.
 
   Lemma nth_mtrans n (M : list (list K)) i : (i < n)%nat -> nth i (mtrans n M) [] = mcol M i.
   Proof.
-    intros Hi. unfold mtrans. rewrite (nth_indep _ [] (mcol M 0)) by (rewrite map_length, seq_length; exact Hi).
-    rewrite map_nth, seq_nth by exact Hi. reflexivity.
+    intros Hi. unfold mtrans. rewrite (nth_map_lt _ (seq 0 n) i [] 0%nat) by (rewrite seq_length; exact Hi).
+    rewrite seq_nth by exact Hi. reflexivity.
   Qed.
 
   Lemma nth_mscale c (M : list (list K)) i : nth i (mscale c M) [] = vscale c (nth i M []).
   Proof.
     unfold mscale. destruct (Nat.lt_ge_cases i (length M)) as [Hi|Hi].
-    - rewrite (nth_indep _ [] (vscale c [])) by (rewrite map_length; exact Hi). apply map_nth.
+    - apply nth_map_lt. exact Hi.
     - rewrite !nth_overflow by (rewrite ?map_length; exact Hi). reflexivity.
   Qed.
 
@@ -435,9 +440,8 @@ Section Laws.
   Proof.
     intros HD Hi Hj. rewrite ment_mmul by exact Hj.
     unfold mmul at 1.
-    rewrite (nth_indep _ [] ((fun ra => map (fun j => dot ra (mcol D j)) (seq 0 ns)) []))
-      by (rewrite map_length; unfold mscale, mtrans; rewrite !map_length, seq_length; exact Hi).
-    rewrite map_nth. rewrite nth_mscale, nth_mtrans by exact Hi.
+    rewrite (nth_map_lt _ _ i [] []) by (unfold mscale, mtrans; rewrite !map_length, seq_length; exact Hi).
+    rewrite nth_mscale, nth_mtrans by exact Hi.
     rewrite (dot_mmul_row ns) by exact HD. unfold bil. apply dot_vscale_l.
   Qed.
 
